@@ -88,7 +88,8 @@ pub enum Ty {
     Bytes64,
     Str,
     /// a `string` field whose native type is `PathBuf`: the value is the path's raw OS bytes
-    /// (`Leaf::Bytes`), written as they are; only UTF-8 paths are values of a protobuf string
+    /// (`Leaf::Bytes`), written as they are; a protobuf string holds UTF-8, so only UTF-8 paths are
+    /// generated for it
     StrPath,
     Msg(MsgId),
 }
@@ -302,7 +303,6 @@ pub struct Stats {
     pub result_err: usize,
     pub has_float32: bool,
     pub path_strings: usize,
-    pub path_strings_not_utf8: usize,
 }
 
 fn is_boundary_u64(x: u64) -> bool {
@@ -498,9 +498,6 @@ impl<'p> Enc<'p> {
             (Ty::Str, Leaf::Str(s)) => self.len_prefixed(s.as_bytes(), out),
             (Ty::StrPath, Leaf::Bytes(b)) => {
                 self.stats.path_strings += 1;
-                if std::str::from_utf8(b).is_err() {
-                    self.stats.path_strings_not_utf8 += 1;
-                }
                 self.len_prefixed(b, out)
             }
             (Ty::Msg(sub), Leaf::Msg(d)) => {
